@@ -47,7 +47,7 @@ def convert_to_poly(t):
     """Convert natural number expression to polynomial."""
     if t.is_var():
         return poly.singleton(t)
-    elif t.is_number():
+    elif t.is_nat_number():
         return poly.constant(t.dest_number())
     elif t.is_plus():
         t1, t2 = t.args
@@ -166,7 +166,8 @@ def nat_eval(t):
     Return a Python integer.
     
     """
-    if t.is_number():
+    if t.is_nat_number():
+        # Only natural number literals: -n and m / n are numbers of other types.
         return t.dest_number()
     elif t.is_comb('Suc', 1):
         return nat_eval(t.arg) + 1
@@ -219,6 +220,7 @@ class nat_eval_macro(Macro):
     def eval(self, goal, prevs):
         assert len(prevs) == 0, "nat_eval_macro: no conditions expected"
         assert goal.is_equals(), "nat_eval_macro: goal must be an equality"
+        assert goal.lhs.get_type() == NatType, "nat_eval_macro: goal must be an equality between natural numbers"
         assert nat_eval(goal.lhs) == nat_eval(goal.rhs), "nat_eval_macro: two sides are not equal"
 
         return Thm(goal)
